@@ -356,6 +356,33 @@ func runC19(r *core.Run) {
 				tags = append(tags, fmt.Sprintf("json:%s:q%d", strings.TrimSuffix(strings.TrimSuffix(name, ".json"), ".jsonl"), qi))
 			}
 		}
+		// combinations of clauses over sources of different shapes (a table narrowed from a wider one next to an exact-width
+		// one, joins, sub-queries, set operations) with analytic functions / aggregates in the select list and in ORDER BY
+		files["wide.csv"] = "a,b,c,d,e\n1,x,2,y,3\n2,x,3,y,4\n3,z,4,w,5\n"
+		files["narrow.csv"] = "a\n5\n6\n"
+		srcs := []string{"wide", "narrow", "wide w JOIN narrow n ON w.a < n.a", "(SELECT a FROM wide) s", "(SELECT a, b FROM wide UNION ALL SELECT a, 'n' FROM narrow) u"}
+		sels := []string{"SELECT a FROM wide UNION ALL SELECT a FROM narrow", "SELECT a FROM narrow UNION ALL SELECT a FROM wide", "SELECT a FROM wide EXCEPT SELECT a FROM narrow",
+			"SELECT a FROM wide INTERSECT SELECT a FROM wide", "SELECT DISTINCT a FROM wide", "SELECT a, COUNT(*) FROM wide GROUP BY a", "SELECT a FROM wide", "SELECT a FROM narrow"}
+		tails := []string{"ORDER BY SUM(a) OVER (PARTITION BY a % 2), a", "ORDER BY ROW_NUMBER() OVER (ORDER BY a DESC)", "ORDER BY a DESC LIMIT 2 WITH TIES", "ORDER BY RANK() OVER (ORDER BY a) DESC, a LIMIT 50 PERCENT",
+			"ORDER BY LAG(a) OVER (ORDER BY a), 1", "ORDER BY COUNT(*) OVER (), a OFFSET 1", "ORDER BY 1", ""}
+		for si, sel := range sels {
+			for ti, tail := range tails {
+				stmts = append(stmts, sel+" "+tail+";")
+				tags = append(tags, fmt.Sprintf("clauses:sel%d:tail%d", si, ti))
+			}
+		}
+		for si, src := range srcs {
+			for qi, q := range []string{"SELECT *, ROW_NUMBER() OVER (ORDER BY 1) AS rn FROM %s ORDER BY rn DESC", "SELECT COUNT(*), MAX(a) FROM %s", "SELECT a, LISTAGG(a, ',') WITHIN GROUP (ORDER BY a DESC) FROM %s GROUP BY a ORDER BY SUM(a) DESC",
+				"SELECT a, SUM(a) OVER (ORDER BY a ROWS BETWEEN 1 PRECEDING AND 1 FOLLOWING) FROM %s ORDER BY 2, 1", "SELECT DISTINCT a, NTILE(2) OVER (ORDER BY a) FROM %s ORDER BY a LIMIT 3"} {
+				if strings.Contains(src, "JOIN") {
+					q = strings.ReplaceAll(strings.ReplaceAll(q, "MAX(a)", "MAX(w.a)"), "(a", "(w.a")
+					q = strings.ReplaceAll(strings.ReplaceAll(q, "SELECT a,", "SELECT w.a,"), "BY a", "BY w.a")
+					q = strings.ReplaceAll(q, "DISTINCT a,", "DISTINCT w.a,")
+				}
+				stmts = append(stmts, strings.ReplaceAll(q, "%s", src)+";")
+				tags = append(tags, fmt.Sprintf("clauses:src%d:q%d", si, qi))
+			}
+		}
 		cl, er := isolatedExec(r, stmts, files)
 		for i := range stmts {
 			r.Distinct("odd:" + tags[i])
